@@ -139,6 +139,10 @@ def attribute(code):
         # the refused event belongs to a forever job, or to a job inside a forever nested scheduler
         code = code[:-len("-under-forever")]
         extra = ["C09"]
+    if code.endswith("-by-nested"):
+        # the parent was (or should have been) aborted by the failure of a critical nested scheduler
+        code = code[:-len("-by-nested")]
+        extra = extra + ["C10"]
     for entry in ATTR:
         rex, props = entry[0], entry[1]
         m = re.match(rex, code)
